@@ -22,6 +22,7 @@ SUP = [
     ["CREATE EXTERNAL TABLE h (x int, y string) PARTITIONED BY (dt string) STORED AS PARQUET LOCATION 's3://a/b';", "CREATE DATABASE d1;"],
     ["CREATE TABLE k (a int, CONSTRAINT ck CHECK (a > 1));", "CREATE DOMAIN s1.d1 AS varchar(10);", "CREATE BIGFILE TABLESPACE ts1;"],
 ]
+SUP.append(["CREATE TABLE n1 (a int NOT NULL, b varchar(10))", "CREATE TABLE n2 (c int)", "CREATE UNIQUE INDEX ni ON n1 (a)"])  # no ';' terminators
 PRE = ["INSERT INTO t1 VALUES (1, 'x');", "GRANT SELECT ON t1 TO joe;", "USE db1;", "GO", "DELETE FROM t1;"]
 GRAM = ["SELECT * FROM t1 WHERE a = 1;", "CREATE VIEW v1 AS SELECT a, b FROM t1 WHERE a > 1;",
         "CREATE FUNCTION f() RETURNS int AS $$ select 1 $$ LANGUAGE sql;", "EXEC sp_rename 'a', 'b';", "VACUUM;", "ANALYZE t1;",
